@@ -126,7 +126,8 @@ def run_shard(sh):
             if budget.expired():
                 break
             r = S.random_walk(cfg, [LedgerMonitor], alpha, rng, sh['length'], multi=True,
-                              weights={'TICK': 6, 'ACCEPT': 3, 'REFUSE': 2, 'STOP': 0.7, 'START': 1.5})
+                              weights={'TICK': 6, 'ACCEPT': 3, 'REFUSE': 2, 'STOP': 0.7, 'START': 1.5},
+                              rest=('Q_UPD', 'Q_NOTI') if i % 3 == 0 else ())
             r.monitors[0].final()
             note(r)
             res['evaluations'] += 1
